@@ -4,13 +4,57 @@
 (* generators and trace validation.                                         *)
 EXTENDS StamValidation, StamTranspose
 
+\* (Design-level definition. Conformance is checked at the level of the property - a RoundTrip event with format
+\*  "reindex": identifiers, items and references as seen through View are preserved and the compacted store satisfies
+\*  every store invariant - because the library keeps trailing vacated slots, i.e. the handle layout is not specified.)
+\* C03, compaction: live resources, datasets and annotations are renumbered by rank (keys, data and text selections keep
+\* their handles); every reference follows its item, public identifiers stay with their item
+Reindex(st) ==
+    LET LA == LiveAnns(st)
+        LR == LiveRes(st)
+        LS == LiveSets(st)
+        mA(x) == Cardinality({y \in LA : y <= x})
+        mR(x) == Cardinality({y \in LR : y <= x})
+        mS(x) == Cardinality({y \in LS : y <= x})
+        leaf(l) == CASE l.k \in {"Text", "Res"} -> [l EXCEPT !.a = mR(l.a)]
+                     [] l.k = "Ann" -> [l EXCEPT !.a = mA(l.a)]
+                     [] l.k = "AnnText" -> [l EXCEPT !.a = mA(l.a), !.c = mR(l.c)]
+                     [] OTHER -> [l EXCEPT !.a = mS(l.a)]
+        ann(x) == [st.anns[x] EXCEPT !.leaves = [i \in DOMAIN @ |-> leaf(@[i])],
+                                     !.data = [i \in DOMAIN @ |-> <<mS(@[i][1]), @[i][2]>>]]
+        sa == SortedInts(LA)
+        sr == SortedInts(LR)
+        ss == SortedInts(LS)
+        st1 == [st EXCEPT !.res = [i \in DOMAIN sr |-> st.res[sr[i]]],
+                          !.sets = [i \in DOMAIN ss |-> st.sets[ss[i]]],
+                          !.anns = [i \in DOMAIN sa |-> ann(sa[i])],
+                          !.idm.res = {<<e[1], mR(e[2])>> : e \in st.idm.res},
+                          !.idm.set = {<<e[1], mS(e[2])>> : e \in st.idm.set},
+                          !.idm.ann = {<<e[1], mA(e[2])>> : e \in st.idm.ann}]
+    IN Ok([st1 EXCEPT !.ix = DerivedIx(st1)], 0)
+
+\* C14 for batches (annotate_from_iter, annotate_from_file): the annotations are added one after the other; if any of
+\* them is rejected the call returns the error and - the property - the store is as it was before the call
+AnnotateBatch(st, a) ==
+    LET r == AnnotateAll(st, a.items) IN IF r.outcome = "ok" THEN r ELSE Err(st)
+
 ApplyAny(st, ev, a) ==
     CASE ev = "ProtectText" -> ProtectText(st, a)
+      [] ev = "AnnotateBatch" -> AnnotateBatch(st, a)
+      [] ev = "Reindex"     -> Reindex(st)
       [] ev = "Transpose"   -> Transpose(st, a)
       [] OTHER              -> Apply(st, ev, a)
 
-MutatingEventsAll == MutatingEvents \cup {"ProtectText", "Transpose"}
+MutatingEventsAll == MutatingEvents \cup {"ProtectText", "Transpose", "AnnotateBatch", "Reindex"}
 
+\* (a batch is in the domain if each item is, on the state it meets when the earlier items have been added)
+RECURSIVE BatchInDomain(_, _)
+BatchInDomain(st, items) ==
+    IF items = <<>> THEN TRUE
+    ELSE InDomain(st, "Annotate", Head(items)) /\
+         LET r == Annotate(st, Head(items)) IN IF r.outcome # "ok" THEN TRUE ELSE BatchInDomain(r.st, Tail(items))
 InDomainAny(st, ev, a) ==
-    IF ev = "Transpose" THEN TransposeInDomain(st, a) ELSE InDomain(st, ev, a)
+    IF ev = "Transpose" THEN TransposeInDomain(st, a)
+    ELSE IF ev = "AnnotateBatch" THEN BatchInDomain(st, a.items)
+    ELSE InDomain(st, ev, a)
 =============================================================================
